@@ -376,7 +376,7 @@ func monC06(c *drv.Ctx) {
 		}
 	})
 	// (1) random parameter sets
-	c.Stage("params", c.Pick(20000, 1000000), false, func(cs *drv.Case) {
+	c.Stage("params", c.Pick(150000, 2000000), false, func(cs *drv.Case) {
 		p := genTTHParams(cs.R)
 		pl := []int{0, 1, 5, 100, 4096, 70000}[cs.R.Intn(6)]
 		if cs.R.Intn(3) > 0 {
